@@ -61,7 +61,7 @@ func NewPBKVS(nr, nc int, keys []string, inputs []tlx.Val, draw func(what string
 	p.Store.Vars["fs"] = tlx.Fn(rs, fsv)
 	p.Store.Vars["primary"] = tlx.Set(rs...)
 	p.Store.Vars["clientInput"] = tlx.Tup(inputs...)
-	p.Store.Vars["clientOutput"] = tlx.Str("")
+	p.Store.Vars["clientOutput"] = tlx.Str("@@defaultInitValue@@")
 	p.Sim.Begin = func(*sched.Instance, string) { p.Store.Begin() }
 	p.Sim.End = func(_ *sched.Instance, _ string, ev trace.Event) { p.Store.End(ev.IsAbort) }
 	consts := distsys.EnsureMPCalContextConfigs(
